@@ -22,6 +22,7 @@ var layoutDirs = []string{".", "a", "ab", "abc", "ab1", "ab2", "a/x", "ab/x"}
 
 type layoutCase struct {
 	Files []string // relative to the module root
+	Cwd   string   // working directory of the call, relative to the module root ("" = the root)
 	Spell string   // how the paths are spelled: clean, dotdot (dir/../dir/f.go), double-slash, dot (./)
 	Abs   []bool
 	Error string // "", missing, txt, type-error, two-modules
@@ -40,8 +41,13 @@ func synthLayout(c explore.Chooser) *prog.Program {
 	}
 	lc.Spell = []string{"clean", "dotdot", "double-slash", "dot"}[s.Choose("spelling", 4)]
 	lc.Error = []string{"", "missing", "txt", "type-error", "two-modules", "directory", "type-error-in-import", "type-error-in-transitive-import", "path-through-a-file", "trailing-separator", "name-too-long"}[s.Choose("error-case", 11)]
+	// the working directory of the call: the module root, or a directory below it (relative paths then climb with ..)
+	lc.Cwd = []string{"", "a", "ab/x"}[s.Choose("cwd", 3)]
 	js, _ := json.Marshal(lc)
 	feats := []string{fmt.Sprintf("files=%v", lc.Files), fmt.Sprintf("abs=%v", lc.Abs)}
+	if lc.Cwd != "" {
+		feats = append(feats, "cwd="+lc.Cwd)
+	}
 	if lc.Spell != "clean" {
 		feats = append(feats, "spelling="+lc.Spell)
 	}
@@ -124,9 +130,22 @@ func evalC17(e *Eval) {
 	for i, f := range lc.Files {
 		if lc.Abs[i] {
 			args = append(args, root+"/"+spell(f))
+		} else if lc.Cwd != "" {
+			rel, _ := filepath.Rel(filepath.Join(root, lc.Cwd), filepath.Join(root, f))
+			args = append(args, rel)
 		} else {
 			args = append(args, spell(f))
 		}
+	}
+	if lc.Cwd != "" {
+		if lc.Error != "" {
+			return // the error cases are spelled relative to the module root: explored from there only
+		}
+		if err := os.Chdir(filepath.Join(root, lc.Cwd)); err != nil {
+			e.Res.Internal = err.Error()
+			return
+		}
+		defer os.Chdir(root)
 	}
 	switch lc.Error {
 	case "missing":
@@ -235,7 +254,7 @@ func init() {
 		ID: "C17", Family: "F-layout", Synth: synthLayout, NoLoad: true,
 		Bound:    map[string]int{"quick": 4, "thorough": 6},
 		Deadline: map[string]time.Duration{"quick": 6 * time.Minute, "thorough": 40 * time.Minute},
-		Rule:     "file sets over the directories {., a, ab, abc, ab1, ab2, a/x, ab/x} of a scratch module on disk: 1..3 files (ordered, duplicates allowed), file f.go or g.go, paths relative / absolute / mixed, spelled clean / with dir/../dir / with a doubled separator / with ./, plus the error cases (missing file, .txt file, package with a type error, file of another module, a directory, type error in a package that is only imported directly or transitively, path through a file, trailing separator, name too long); every set within the deviation bound of the default (one relative file) is loaded with the real analysis.LoadSources; non-trivial = at least two arguments",
+		Rule:     "file sets over the directories {., a, ab, abc, ab1, ab2, a/x, ab/x} of a scratch module on disk: 1..3 files (ordered, duplicates allowed), file f.go or g.go, paths relative / absolute / mixed, the call made from the module root or from a directory below it (a, ab/x: relative paths then start with a different number of ..), spelled clean / with dir/../dir / with a doubled separator / with ./, plus the error cases (missing file, .txt file, package with a type error, file of another module, a directory, type error in a package that is only imported directly or transitively, path through a file, trailing separator, name too long); every set within the deviation bound of the default (one relative file) is loaded with the real analysis.LoadSources; non-trivial = at least two arguments",
 		Assumptions: []string{
 			"each call runs the real go list (offline, GOFLAGS=-mod=mod); the worker's current directory is the module root",
 		},
@@ -278,12 +297,12 @@ func conformanceSynth(base func(explore.Chooser) *prog.Program) func(explore.Cho
 
 var conformanceTmp string
 
-func evalConformance(e *Eval) {
+// loadFromDisk writes the program of e to a scratch tree and loads it with the real analysis.LoadSources.
+func loadFromDisk(e *Eval) (disk *prog.Loaded, files []string, err error) {
 	if conformanceTmp == "" {
 		tmp, err := os.MkdirTemp("", "gomacro-conf-")
 		if err != nil {
-			e.Res.Internal = err.Error()
-			return
+			return nil, nil, err
 		}
 		tmp, _ = filepath.EvalSymlinks(tmp)
 		conformanceTmp = tmp
@@ -305,16 +324,22 @@ func evalConformance(e *Eval) {
 		}
 	}
 	rootDir := filepath.Join(modRoot, strings.TrimPrefix(p.Root().Path, prog.Module))
-	var files []string
 	for _, a := range p.Analysed {
 		files = append(files, filepath.Join(rootDir, a))
 	}
 	pkgs, _, err := analysis.LoadSources(files)
 	if err != nil {
-		e.Res.Internal = fmt.Sprintf("real loader rejects a synthesised program (features %v): %v", p.Features, err)
+		return nil, files, fmt.Errorf("real loader rejects a synthesised program (features %v): %v", p.Features, err)
+	}
+	return &prog.Loaded{Prog: p, Root: pkgs[0], RootFiles: files, DiskDir: rootDir}, files, nil
+}
+
+func evalConformance(e *Eval) {
+	disk, files, err := loadFromDisk(e)
+	if err != nil {
+		e.Res.Internal = err.Error()
 		return
 	}
-	disk := &prog.Loaded{Prog: p, Root: pkgs[0], RootFiles: files, DiskDir: rootDir}
 	e.Res.Nontrivial = true
 	e.Res.Traces = 1
 	same := 0
